@@ -6,7 +6,8 @@ PROPERTY = "C01"
 
 def tasks(tier):
     return (contract_tasks("contracts.scheduler", "C01", tier=tier) + contract_tasks("contracts.sim_process", "C01", tier=tier)
-            + contract_tasks("contracts.progress", "C01", tier=tier) + lemma_tasks("contracts.progress", "C01"))
+            + contract_tasks("contracts.progress", "C01", tier=tier) + lemma_tasks("contracts.progress", "C01")
+            + contract_tasks("contracts.connect", "C01", tier=tier))
 
 
 TRUSTED_BASE = TRUSTED_CORE
